@@ -9,11 +9,13 @@ sum, V (alpha : A), the coded sub-cell sum, the coded face force and the pressur
 with the action of the real matrices and of `Biot._create_rhs_scalar_gradient`.
 """
 import os
+import sys
 
-os.environ.setdefault("OMP_NUM_THREADS", "1")
-os.environ.setdefault("OPENBLAS_NUM_THREADS", "1")
-os.environ.setdefault("MKL_NUM_THREADS", "1")
-os.environ.setdefault("NUMBA_NUM_THREADS", "2")
+if "numpy" not in sys.modules and "numba" not in sys.modules:  # shared machine: keep BLAS / numba thread pools small
+    os.environ.setdefault("OMP_NUM_THREADS", "1")
+    os.environ.setdefault("OPENBLAS_NUM_THREADS", "1")
+    os.environ.setdefault("MKL_NUM_THREADS", "1")
+    os.environ.setdefault("NUMBA_NUM_THREADS", "2")
 
 import json
 import random
@@ -25,7 +27,6 @@ import numpy as np
 from harness.common import frac, deep_compare
 
 PID = "C15"
-DISABLED = True
 THEOREMS = [
     "PorepyVerif.C15.closedCellB_iff",
     "PorepyVerif.C15.div_u_exact",
@@ -45,10 +46,11 @@ AUDIT = "PorepyVerif/C15/Audit.lean"
 DRIVER = "PorepyVerif/C15/Driver.lean"
 N = {"quick": 24, "thorough": 500}
 TOL = 1e-8
+COND_MAX = 1e6  # interaction regions with a (numerically) singular local system: the discretisation is not defined, no claim
 RULE = ("grids: 2-D Cartesian (nodes perturbed by 0 / 1/8 / 1/4 of the mesh size, boundary nodes too), structured and Delaunay triangles, "
         "mixed grids of quadrilaterals and triangles (cells with different node counts); "
         "3-D Cartesian (plain anisotropic, sheared by a dyadic affine map, or node-perturbed so that faces become non-planar) and structured "
-        "tetrahedra with perturbed nodes; 1..4 cells per direction incl. single cells and single rows; all node coordinates dyadic. "
+        "tetrahedra with perturbed nodes, extruded triangle grids (prisms: faces with 3 and with 4 nodes); 1..4 cells per direction incl. single cells and single rows; all node coordinates dyadic. "
         "All mechanical boundary faces Dirichlet, data from u = A x + b (A general / symmetric / skew / trace-free / zero, dyadic). "
         "1-2 coupling keys per case: python float or int coefficient (non-negative, incl. zero; negative ones are rejected by SecondOrderTensor), uniform symmetric positive definite tensor, or "
         "cell-wise varying scalar (divergence part only; for these the coded first-side force and pressure-jump right-hand side are tied to "
@@ -72,7 +74,10 @@ EXPLANATION = ("CORE (partial): dimension-generic theorems over Q: divergence th
                "cell, the pressure-jump right-hand side vanishes for uniform alpha. Executable model evaluated exactly on rational grid geometry and "
                "compared with the real matrices' action; the oracle checks the property statement directly on the real matrices. The MPSA local "
                "solves and the vectorised assembly are bridged by the correspondence check, not proved.")
-ASSUMPTIONS = ["ClosedCell holds for the grid cells (decided exactly by the driver for every generated cell with planar faces)",
+ASSUMPTIONS = ["every MPSA local system is uniquely solvable (condition number of each interaction-region block <= 1e6, observed on the matrices the "
+               "real code inverts; geometries where a block is singular get no claim, e.g. a corner whose two cell centres are collinear with the "
+               "two boundary face centres, corpus/C15/degenerate-corner-deltri.json)",
+               "ClosedCell holds for the grid cells (decided exactly by the driver for every generated cell with planar faces)",
                "sub-cell gradients of the MPSA local systems are exact for affine data (C13); all mechanical boundary faces are Dirichlet",
                "the stiffness tensor is homogeneous and, for the scalar-gradient statement, the coupling tensor is the same in all cells"]
 
@@ -110,10 +115,20 @@ def build_grid(gs):
         g = pp.TriangleGrid(np.array(pts).T)
     elif kind == "mixed":
         g = _mixed_grid(n, phys, gs.get("split", []))
+    elif kind == "prism":
+        # triangles (perturbed in the plane) extruded in z: cells with 6 nodes, faces with 3 and with 4 nodes
+        g2 = pp.StructuredTriangleGrid(np.array(n[:2]), physdims=phys[:2])
+        pert2 = float(_F(gs.get("pert", "0")))
+        r = random.Random(gs["pseed"])
+        for v in range(g2.num_nodes):
+            for k in range(2):
+                g2.nodes[k, v] += pert2 * (phys[k] / n[k]) * r.randrange(-32, 33) / 64
+        g2.compute_geometry()
+        g, _, _ = pp.grid_extrusion.extrude_grid(g2, np.array([phys[2] * k / n[2] for k in range(n[2] + 1)]))
     else:
         raise ValueError(kind)
     pert = float(_F(gs.get("pert", "0")))
-    if pert and kind != "deltri":
+    if pert and kind not in ("deltri", "prism"):
         r = random.Random(gs["pseed"])
         h = [phys[k] / n[k] for k in range(d)]
         for v in range(g.num_nodes):
@@ -312,16 +327,27 @@ def gen_case(rng, tier):
     big = tier == "thorough"
     dim = 2 if rng.random() < 0.55 else 3
     gs = {}
-    if dim == 2:
+    r = rng.random()
+    cfg = "split" if r < 0.2 else ("partial" if r < 0.35 else "full")
+    if cfg != "full" and rng.random() < 0.7:
+        # sub-problems / active sub-grids are proper sub-grids only if the grid is long enough for the two-layer overlap
+        kind = "cart"
+        n = rng.choice([[4, 1], [5, 1], [6, 1], [4, 3], [5, 3]] + ([[8, 1], [6, 4]] if big else [])) if dim == 2 else \
+            rng.choice([[4, 1, 1], [5, 1, 1], [6, 1, 1]] + ([[8, 1, 1], [5, 3, 1]] if big else []))
+        if rng.random() < 0.5:
+            n = n[::-1]
+    elif dim == 2:
         kind = rng.choice(["cart", "cart", "tri", "deltri", "mixed"])
         n = [rng.choice([1, 2, 2, 3, 3, 4] + ([5, 6] if big else [])), rng.choice([1, 2, 2, 3] + ([4, 5] if big else []))]
         if kind == "tri":
             n = [min(n[0], 3 if not big else 4), min(n[1], 2 if not big else 3)]
     else:
-        kind = rng.choice(["cart", "cart", "cart", "tet", "tet"])
+        kind = rng.choice(["cart", "cart", "cart", "tet", "tet", "prism"])
         n = [rng.choice([1, 2, 2, 3]), rng.choice([1, 2, 2]), rng.choice([1, 2, 3 if big else 2])]
         if kind == "tet":
             n = [rng.choice([1, 1, 2]), 1, rng.choice([1, 1, 2]) if big else 1]
+        if kind == "prism":
+            n = [rng.choice([1, 2, 2 if not big else 3]), rng.choice([1, 1, 2]), rng.choice([1, 2])]
     phys = [str(Fraction(n[k]) * rng.choice([Fraction(1), Fraction(1), Fraction(1, 2), Fraction(2), Fraction(3, 4)])) for k in range(dim)]
     gs = {"kind": kind, "n": n, "phys": phys, "pseed": rng.randrange(10**6)}
     if kind == "deltri":
@@ -365,10 +391,9 @@ def gen_case(rng, tier):
             "mu": str(rng.choice([Fraction(1), Fraction(1, 2), Fraction(4)])), "lam": str(rng.choice([Fraction(0), Fraction(1), Fraction(8)])),
             "eta": rng.choice([None, None, None, None, "0", "1/4", "1/2"]), "inverter": rng.choice(["python", "python", "numba"]),
             "nsub": None, "spec_cells": None}
-    r = rng.random()
-    if r < 0.2 and g.num_cells >= 4:
+    if cfg == "split" and g.num_cells >= 4:
         case["nsub"] = rng.choice([2, 3])
-    elif r < 0.35 and g.num_cells >= 4:
+    elif cfg == "partial" and g.num_cells >= 4:
         case["spec_cells"] = sorted(rng.sample(range(g.num_cells), rng.choice([1, 1, 2])))
     if (case["nsub"] or case["spec_cells"] is not None) and rng.random() < 0.6:
         # cell-wise coefficients exercise the restriction of the coupling tensors to subproblems / active cells
@@ -436,16 +461,43 @@ def _real(case):
         par["specified_cells"] = np.array(case["spec_cells"], dtype=int)
     data = pp.initialize_data({}, "mechanics", par)
     discr = pp.Biot("mechanics")
-    with warnings.catch_warnings():
-        warnings.simplefilter("ignore")
-        discr.discretize(g, data)
+    # Unique solvability of the MPSA local systems is a hypothesis of the property (C13: `Unisolvent`): observe it on the
+    # matrices the real code is about to invert (condition number of every interaction-region block).
+    conds = []
+    orig_inv = pp.matrix_operations.invert_diagonal_blocks
+
+    def spy(mat, s, method=None):
+        m = mat.tocsr()
+        off = np.concatenate([[0], np.cumsum(s)])
+        for k in range(len(s)):
+            sv = np.linalg.svd(m[off[k]:off[k + 1], off[k]:off[k + 1]].toarray(), compute_uv=False)
+            conds.append(float(sv[0] / max(sv[-1], 1e-300)) if sv.size else 1.0)
+        return orig_inv(mat, s, method=method)
+
+    pp.matrix_operations.invert_diagonal_blocks = spy
+    try:
+        with warnings.catch_warnings():
+            warnings.simplefilter("ignore")
+            discr.discretize(g, data)
+    except Exception as e:
+        if conds and max(conds) > COND_MAX:
+            out = {"g": g, "d": d, "degenerate": True, "cond": max(conds), "raised": type(e).__name__}
+            _CACHE[ck] = out
+            return out
+        raise
+    finally:
+        pp.matrix_operations.invert_diagonal_blocks = orig_inv
+    if conds and max(conds) > COND_MAX:
+        out = {"g": g, "d": d, "degenerate": True, "cond": max(conds), "raised": None}
+        _CACHE[ck] = out
+        return out
     M = data[pp.DISCRETIZATION_MATRICES]["mechanics"]
     uc = (A @ g.cell_centers[:d] + b[:, None]).ravel("F")
     ub = np.zeros((d, nf))
     ub[:, bf] = A @ g.face_centers[:d][:, bf] + b[:, None]
     ub = ub.ravel("F")
     pvec = p * np.ones(nc)
-    out = {"g": g, "d": d, "A": A, "b": b, "p": p, "alphas": {n_: (a[1], a[2]) for n_, a in alphas.items()}, "keys": {}}
+    out = {"g": g, "d": d, "degenerate": False, "cond": max(conds) if conds else 1.0, "A": A, "b": b, "p": p, "alphas": {n_: (a[1], a[2]) for n_, a in alphas.items()}, "keys": {}}
     partial = case.get("spec_cells") is not None
     # the internals of the scalar-gradient construction, called as _local_discretization calls them (whole grid)
     eta = float(_F(case["eta"])) if case.get("eta") is not None else _fvutils.determine_eta(g)
@@ -515,6 +567,8 @@ def oracle(case):
     except Exception as e:
         return {"what": f"Biot.discretize (or grid / parameter set-up) raised {type(e).__name__}: {e} on {cls}", "key": f"discretize-raises-{type(e).__name__}"}
     g, d = R["g"], R["d"]
+    if R["degenerate"]:
+        return None  # a local MPSA system is singular on this geometry (hypothesis Unisolvent fails): no claim
     A = R["A"]
     for key in case["keys"]:
         name, mode = key["name"], key["mode"]
@@ -602,6 +656,8 @@ def model_ops(case):
         R = _real(case)
     except Exception:
         return []
+    if R["degenerate"]:
+        return []
     d = len(case["grid"]["n"])
     nc = len(G["V"])
     ops = []
@@ -633,6 +689,8 @@ def impl_run(case):
     """What the real code says, normalised to O(1) numbers (see `_scales`)."""
     R = _real(case)
     g, d = R["g"], R["d"]
+    if R["degenerate"]:
+        return {"degenerate": True}
     cf = g.cell_faces.tocsc()
     out = {"geom": {"V": [_r(v) for v in g.cell_volumes],
                     "n": [[_r(x) for x in g.face_normals[:d, f]] for f in range(g.num_faces)],
@@ -669,6 +727,8 @@ def model_decode(outs, case):
     except Exception as e:
         return {"prepare_failed": f"{type(e).__name__}: {e}"}
     g, d = R["g"], R["d"]
+    if R["degenerate"]:
+        return {"degenerate": True}
     out = {"geom": {"V": [_r(v) for v in G["V"]], "n": [[_r(x) for x in v] for v in G["n"]], "x": [[_r(x) for x in v] for v in G["x"]],
                     "sgn": G["sgn"]}, "keys": {}}
     closed = None
@@ -720,10 +780,17 @@ def _ncells(gs):
         return 2 + 2 * gs.get("npts", 0)
     if gs["kind"] == "mixed":
         return int(np.prod(gs["n"])) + len(gs.get("split", []))
-    return int(np.prod(gs["n"])) * {"cart": 1, "tri": 2, "tet": 6}[gs["kind"]]
+    return int(np.prod(gs["n"])) * {"cart": 1, "tri": 2, "tet": 6, "prism": 2}[gs["kind"]]
+
+
+def case_degenerate(case):
+    r = _CACHE.get(json.dumps(case, sort_keys=True))
+    return bool(r and r.get("degenerate"))
 
 
 def nontrivial(case):
+    if case_degenerate(case):
+        return False
     return _ncells(case["grid"]) >= 2 and any(_F(x) != 0 for r in case["A"] for x in r) and _F(case["p"]) != 0
 
 
@@ -792,6 +859,7 @@ def stats(cases, impl_outs):
             "zero_pressure": sum(1 for c in cases if _F(c["p"]) == 0),
             "eta_nondefault": sum(1 for c in cases if c.get("eta") is not None),
             "numba_inverter": sum(1 for c in cases if c.get("inverter") == "numba"),
+            "degenerate_no_claim": sum(1 for o in impl_outs if isinstance(o, dict) and o.get("degenerate")),
             "exact_rational_geometry": sum(1 for o in impl_outs if isinstance(o, dict) and o.get("closed")),
             "cells_total": sum(len(o["geom"]["V"]) for o in impl_outs if isinstance(o, dict) and "geom" in o),
             "faces_total": sum(len(o["geom"]["n"]) for o in impl_outs if isinstance(o, dict) and "geom" in o)}
